@@ -146,7 +146,9 @@ def result_of(schema, xml):
 
 
 def run_schedule(job):
-    ver, xsds, docs, nthreads, seed, controlled = job
+    ver, xsds, docs, nthreads, seed, controlled = job[:6]
+    lin = len(job) > 6       # results are compared with every SEQUENTIAL order of the calls (the schema keeps
+    #                          state across calls, F-C10-a): a result no order explains is a race
     from xmlschema import _verif_trace as vt
     cls = cm.schema_class(ver)
     with warnings.catch_warnings():
@@ -179,9 +181,19 @@ def run_schedule(job):
             mon0.free_tool_id(mon0.PROFILER_ID)
         horizon = int(cnt[0] * 1.1)
     sched = Sched(nthreads, seed, 0.03 if controlled else 0.0, horizon)
+    module_locks = []
     if controlled:
         object.__setattr__(s.maps, "_build_lock", coop_lock(sched))
         object.__setattr__(s.maps.cache, "_lock", coop_lock(sched))
+        # module-level locks of the package (any threading.Lock / RLock bound to a module global): cooperative too,
+        # or a thread parked by the scheduler while holding one would block the running thread for good
+        lock_types = (type(threading.Lock()), type(threading.RLock()))
+        for name, mod in list(sys.modules.items()):
+            if name == "xmlschema" or name.startswith("xmlschema."):
+                for attr, val in list(vars(mod).items()):
+                    if isinstance(val, lock_types):
+                        module_locks.append((mod, attr, val))
+                        setattr(mod, attr, coop_lock(sched))
     results = [None] * nthreads
     thread_index = {}
     ev = vt.start()
@@ -234,13 +246,31 @@ def run_schedule(job):
             mon.free_tool_id(tool)
         else:
             sys.setswitchinterval(old)
+        for mod, attr, val in module_locks:
+            setattr(mod, attr, val)
         vt.stop()
     out = []
     if hung:
         out.append("a thread did not finish within 60 s (deadlock?)")
         for i in range(nthreads):
             sched.ev[i].set()
-    for i in range(nthreads):
+    if lin and not hung:
+        import itertools
+        explained = None
+        for perm in itertools.permutations(range(nthreads)):
+            with warnings.catch_warnings():
+                warnings.simplefilter("ignore")
+                f = cls(list(xsds) if len(xsds) > 1 else xsds[0])
+            seq = {}
+            for i in perm:
+                seq[i] = result_of(f, docs[i % len(docs)])
+            if all(results[i] == seq[i] for i in range(nthreads)):
+                explained = perm
+                break
+        if explained is None:
+            out.append(f"no sequential order of the {nthreads} calls explains the results "
+                       f"{[str(r)[:160] for r in results]} (documents {[docs[i % len(docs)] for i in range(nthreads)]})")
+    for i in range(nthreads if not lin else 0):
         want = expected[i % len(docs)]
         if results[i] != want:
             out.append(f"thread {i}: {str(results[i])[:300]} differs from the single-threaded result "
@@ -286,6 +316,14 @@ def run(ctx: Ctx):
         jobs.append(("1.0", x, d, 4, ctx.seed * 100003 + k, False))
     for k in range(120 if thorough else 24):        # XSD 1.1 per-value XPath evaluation, different documents per thread
         jobs.append(("1.1", (ASSERT_XSD,), assert_docs(), 2 + k % 3, ctx.seed * 7 + k, k % 6 != 5))
+    # xsi:type under identity constraints (the scenario of spec/History.tla): the first use of a type on an element
+    # declaration changes the schema object; every thread's result must be the result of SOME sequential order
+    from checks import c10
+    xdocs = [c10.doc_xml({"id": i, "retyped": r, "dup": d}) for i, r, d in
+             (("I1", True, True), ("I1", True, True), ("I2", True, True), ("I2", True, True), ("I1", True, False))]
+    for k in range(400 if thorough else 80):
+        rot = xdocs[k % 5:] + xdocs[:k % 5]
+        jobs.append(("1.0" if k % 2 else "1.1", (c10.XSD,), rot, 2 + k % 3, ctx.seed * 31 + k, k % 8 != 7, "lin"))
     res = ctx.pmap(run_schedule, jobs, chunks=2)
     trs = []
     points = switches = 0
@@ -295,7 +333,8 @@ def run(ctx: Ctx):
         switches += sw
         for what in bad:
             ctx.report({"driver": "schedule", "ver": job[0], "xsds": list(job[1]), "docs": job[2],
-                        "threads": job[3], "seed": job[4], "controlled": job[5], "observed": what},
+                        "threads": job[3], "seed": job[4], "controlled": job[5], "lin": len(job) > 6,
+                        "observed": what},
                        f"{job[3]} threads, seed {job[4]}, {'controlled' if job[5] else 'free-running'}: {what}")
     rejected, _, flat = traces.validate(ctx, "Trace_Threads", trs, CFG)
     reasons = {int(t): (int(l), w) for t, l, w in re.findall(r'<< ?(\d+), (\d+), "([^"]+)" ?>>', flat)}
@@ -324,7 +363,8 @@ def run(ctx: Ctx):
                 "package (3 % switch rate) and at every blocked lock acquisition; plus free-running 4-thread "
                 "stress with a 1 microsecond switch interval; threads reach build() at seeded arrival times spread over "
                 "the whole duration of an undisturbed build; plus an XSD 1.1 schema with assertion facets, a complex-type "
-                "assertion validated with different documents per thread")
+                "assertion validated with different documents per thread; plus the xsi:type / identity scenario of "
+                "spec/History.tla, judged by linearizability (some sequential order of the calls must explain all results)")
     ctx.assumptions += ["races inside a single C call are invisible to the controlled scheduler",
                         "documents do not trigger loading of further schemas; pool documents that hit "
                         "F-C10-a (xsi:type under identities) are not in the pool schemas used here"]
@@ -334,7 +374,7 @@ def run(ctx: Ctx):
 def replay(ctx: Ctx, case):
     if case.get("driver") == "schedule":
         bad, tr, _, _ = run_schedule((case["ver"], tuple(case["xsds"]), case["docs"], case["threads"],
-                                      case["seed"], case["controlled"]))
+                                      case["seed"], case["controlled"]) + (("lin",) if case.get("lin") else ()))
         for what in bad:
             ctx.report(dict(case, observed=what), what)
     else:
